@@ -50,6 +50,13 @@ CALLS = {
     "quad": lambda i: xitorch.integrate.quad(lambda x, a: torch.sin(a * x) * torch.ones(2, dtype=DT), 0.1, 0.9, params=(i["a"],), n=8),
     "mcquad": lambda i: xitorch.integrate.mcquad(lambda x, a: a * x.sum() + a ** 2, lambda x, a: (-0.5 * (x - a) ** 2).sum(), torch.zeros(1, dtype=DT), fparams=(i["a"],), pparams=(i["a"],),
                                                   method="mhcustom", nsamples=4, nburnout=2, custom_step=lambda x, *p: x * 0.5 + 0.3),
+    # user functions that hand back one of the caller's own tensors (a constant integrand / right-hand side): the functional may not
+    # accumulate into what the function returned
+    "quad:alias": lambda i: xitorch.integrate.quad(lambda x, v: v, 0.1, 0.9, params=(i["c"],), n=4),
+    "solve_ivp:alias": lambda i: xitorch.integrate.solve_ivp(lambda t, y, c: c, i["ts"], torch.zeros(3, dtype=DT), params=(i["c"],), method="rk4"),
+    "solve_ivp:alias45": lambda i: xitorch.integrate.solve_ivp(lambda t, y, c: c, i["ts"], torch.zeros(3, dtype=DT), params=(i["c"],), method="rk45"),
+    "mcquad:alias": lambda i: xitorch.integrate.mcquad(lambda x, c: c, lambda x, a: (-0.5 * (x - a) ** 2).sum(), torch.zeros(1, dtype=DT), fparams=(i["c"],), pparams=(i["a"],),
+                                                        method="mhcustom", nsamples=4, nburnout=2, custom_step=lambda x, *p: x * 0.5 + 0.3),
     "interp1d:cspline": lambda i: xitorch.interpolate.Interp1D(i["xs"], i["ys"], method="cspline")(i["xq"]),
     "interp1d:linear": lambda i: xitorch.interpolate.Interp1D(i["xs"], i["ys"], method="linear")(i["xq"]),
     "squad:simpson": lambda i: xitorch.integrate.SQuad(i["xs"], method="simpson").cumsum(i["ys"]),
